@@ -186,10 +186,13 @@ func vfC16(w *vfWorld) {
 		idx++
 		return r
 	}
+	// the Host the client names (part of both executions): the deployment's own, or one that matches no cookie domain
+	reqHosts := []string{"", "", "", "unrelated.test", "10.0.0.5", "other.sim"}
 	get := func(target string, peer string) *vfResp {
-		return do(&vfReq{Method: "GET", Target: target, RemoteAddr: peer})
+		return do(&vfReq{Method: "GET", Target: target, RemoteAddr: peer, Host: reqHosts[t.Choice("c16.reqhost", len(reqHosts))]})
 	}
-	peers := []string{"", "", "10.1.2.3:999", "203.0.113.9:1", "[2001:db8::1]:9", "198.51.100.99:7"}
+	// ("@" is what a unix-socket listener reports as the peer address)
+	peers := []string{"", "", "10.1.2.3:999", "203.0.113.9:1", "[2001:db8::1]:9", "198.51.100.99:7", "@"}
 	// unauthenticated traffic
 	for i := 0; i < 6+t.Choice("c16.n1", 6); i++ {
 		target := vfPick(t, "c16.target", []string{"/app/x", "/public/a", "/health", pp + "/auth", pp + "/start?rd=%2Fapp", pp + "/start?rd=https%3A%2F%2Fevil.test%2F", pp + "/sign_in?rd=%2Fx",
